@@ -47,6 +47,13 @@ CHECKS["C06"] = dict(
     technique="forward must-dataflow (gate dominance, extent proofs) + may-analysis of failure-to-status flow on the clang CFG",
 )
 
+CHECKS["C18"] = dict(
+    text="Static decision of the consistency of every parameter table compiled under the parsed configuration headers (quick: 256-, 255- and 381-bit prime fields, GF(2^283); thorough: 28 further field sizes, i.e. parameter sets no test configuration instantiates): the switch cases of fp_param_set / fp_prime_set_pairf / fb_param_set / ep_param_set / eb_param_set / ed_param_set are interpreted as constant-building code over the clang CFG (CONSTEVAL; an unmodelled statement is analysis-broken, never skipped) and the integers are checked with independent arithmetic: prime modulus or irreducible polynomial, generator on the curve, prime order annihilating the generator, Hasse bound with the tabulated cofactor, GLV constants against their defining equations and the generator, embedding degree and security level advertised by ep_param_embed / ep_param_level. This property quantifies over a finite set whose data are in the source, so static evaluation decides these clauses outright. Run-time derived constants (Montgomery, lattice basis, Frobenius, map constants, twist generators) are not decided.",
+    design_ref="DESIGN.md section 3 (C18)",
+    note="Trusted: clang parser/constant evaluator (macro-expanded string literals, enum values), the extractor, sa/py/relic_sa/consteval.py (interpreter of ~40 bn/fp statement forms) and sa/py/relic_sa/nt.py (Miller-Rabin + strong Lucas, affine point arithmetic over F_p, GF(2^m) and Edwards form, Rabin irreducibility). Validated on every run by miniatures (mistyped generator digit, copied order, wrong cofactor) in sa/selftest/c18.c.",
+    technique="constant evaluation (abstract interpretation with concrete integers) of the parameter tables over the clang CFG + independent arithmetic",
+)
+
 NOT_APPLICABLE = {
     "C10": "every clause is an equality of ring elements for all operand values; no guard, ordering or ownership structure whose violation is visible in the code's shape, and lazy-reduction bounds need a relational numeric domain that goto-analyzer's intervals cannot carry across the *_low calls",
     "C11": "group law, [k]Q, Frobenius eigenvalue and cofactor image are algebraic identities over runtime values; the structural clauses (decoders, buffers, regularity) of the ep2..ep8 siblings are decided under C07, C08 and C20",
